@@ -27,14 +27,19 @@ var foPath = map[string]string{
 
 type foItem struct {
 	P    string `json:"p"`
-	Idx  int    `json:"idx"`  // p = "n": the idx-th numbered file /w/n/<idx>-nnn...
-	Mode string `json:"mode"` // r | w | rw
+	Idx  int    `json:"idx"`            // p = "n": the idx-th numbered file /w/n/<idx>-nnn...
+	Len  int    `json:"len,omitempty"`  // p = "L": 1 | 2 | 3 = prefix of 4 | 8 | 15 long components
+	What string `json:"what,omitempty"` // p = "L": "dir" (the prefix itself) | "miss" (<prefix>/miss-<idx>)
+	Mode string `json:"mode"`           // r | w | rw
 	Mk   bool   `json:"mk"`
 }
 
 type foLink struct {
 	Link string `json:"link"`
 	To   string `json:"to"`
+	Idx  int    `json:"idx"`
+	Len  int    `json:"len"`
+	What string `json:"what"`
 }
 
 type foOp struct {
@@ -50,7 +55,8 @@ type foFS struct {
 	B   string `json:"b"`
 	Sub string `json:"sub"`
 	C   string `json:"c"`
-	N   int    `json:"n"` // numbered regular files 1..n in /w/n
+	N   int    `json:"n"`  // numbered regular files 1..n in /w/n
+	Ld  int    `json:"ld"` // 1: the chain of fifteen 250-byte directories is planted below /w
 }
 
 type foCase struct {
@@ -87,6 +93,8 @@ type foEv struct {
 	Post    foObs    `json:"post,omitempty"`
 	NObs    int      `json:"nobs"`  // entries of /w/n (state event)
 	NPost   int      `json:"npost"` // entries of /w/n after the operation
+	LObs    int      `json:"lobs"`  // miss-* entries in the long chain (state event)
+	LPost   int      `json:"lpost"` // ... after the operation
 }
 
 type foOut struct {
@@ -97,8 +105,40 @@ type foOut struct {
 	Setup string `json:"setup,omitempty"`
 }
 
+var longComps = map[int]int{1: 4, 2: 8, 3: 15}
+
+// longPath renders a long legal path: a prefix of the planted chain or a missing entry in it
+func longPath(n int, what string, idx int) string {
+	p := "/w" + strings.Repeat("/"+strings.Repeat("L", 250), longComps[n])
+	if what == "miss" {
+		p += fmt.Sprintf("/miss-%04d", idx)
+	}
+	return p
+}
+
+func (e *env) countLong() int {
+	n := 0
+	for k := range longComps {
+		d, err := os.Open(e.root(longPath(k, "dir", 0)))
+		if err != nil {
+			continue
+		}
+		names, _ := d.Readdirnames(-1)
+		d.Close()
+		for _, x := range names {
+			if strings.HasPrefix(x, "miss-") {
+				n++
+			}
+		}
+	}
+	return n
+}
+
 // itemPath renders the path of an Open item; numbered files have long distinct names
 func itemPath(it foItem) string {
+	if it.P == "L" {
+		return longPath(it.Len, it.What, it.Idx)
+	}
 	if it.P == "n" {
 		return fmt.Sprintf("/w/n/%04d-%s", it.Idx, strings.Repeat("n", 85))
 	}
@@ -190,6 +230,7 @@ func (e *env) observeFS() foObs {
 	for _, k := range []string{"a", "b", "sub", "c", "target", "tdir", "nowhere", "dev"} {
 		o[k] = e.kindOf(foPath[k])
 	}
+	o["ldeep"] = e.kindOf(longPath(3, "dir", 0))
 	return o
 }
 
@@ -301,6 +342,9 @@ func (w *foWorker) run(c foCase) foOut {
 	if c.FS.N > 0 {
 		args = append(args, fmt.Sprintf("nreg:/w/n:%d", c.FS.N))
 	}
+	if c.FS.Ld > 0 {
+		args = append(args, "ldir:/w")
+	}
 	if c.FS.Sub == "dir" {
 		args = append(args, "dir:/w/sub")
 		args = append(args, plantOp("/w/sub/c", c.FS.C)...)
@@ -317,7 +361,7 @@ func (w *foWorker) run(c foCase) foOut {
 		out.Setup = "planting program: " + r.Status + " " + r.Err + r.Errs
 		return out
 	}
-	out.Ev = append(out.Ev, foEv{E: "state", Obs: e.observeFS(), NObs: e.countNumbered(), Items: []foItem{}, Links: []foLink{}, Res: []foRes{}, Errs: []string{}})
+	out.Ev = append(out.Ev, foEv{E: "state", Obs: e.observeFS(), NObs: e.countNumbered(), LObs: e.countLong(), Items: []foItem{}, Links: []foLink{}, Res: []foRes{}, Errs: []string{}})
 	for _, op := range c.Ops {
 		if op.Op == "open" && op.Many > 0 && len(op.Items) > 0 {
 			it := op.Items[0]
@@ -391,7 +435,11 @@ func (w *foWorker) run(c foCase) foOut {
 		case "symlink":
 			links := make([]container.SymbolicLink, 0, len(op.Links))
 			for _, l := range op.Links {
-				links = append(links, container.SymbolicLink{LinkPath: foPath[l.Link], Target: foPath[l.To]})
+				lp := foPath[l.Link]
+				if l.Link == "L" {
+					lp = longPath(l.Len, l.What, l.Idx)
+				}
+				links = append(links, container.SymbolicLink{LinkPath: lp, Target: foPath[l.To]})
 			}
 			var errs []error
 			var cerr error
@@ -419,6 +467,7 @@ func (w *foWorker) run(c foCase) foOut {
 		}
 		ev.Post = e.observeFS()
 		ev.NPost = e.countNumbered()
+		ev.LPost = e.countLong()
 		out.Ev = append(out.Ev, ev)
 		// Ping carries a 3 s deadline.  To keep a slow machine from failing it, first make one
 		// round trip without a deadline (an empty Symlink request is answered by an error reply):
